@@ -19,7 +19,7 @@ RULE = ('generated nodes (documents for generated class models, their mutations,
         'runs on a real UnknownNode and on the Lean model (raise / no raise compared), is checked '
         'against the documented condition evaluated independently, and must leave the node unchanged.  '
         'Non-trivial = the helper returns normally, or the node is a mapping.'
-        'Directed family: every attribute of a holder asked for by its own declared type (enums'
+        ' Directed family: every attribute of a holder asked for by its own declared type (enums'
         ' incl. str mix-ins with members spelt like booleans, string-likes, classes written with'
         ' dashed keys, a class with extras missing its required key, ints in every YAML 1.1'
         " spelling), twice, then by other classes' types.")
